@@ -344,6 +344,30 @@ def oracle_c12(h, r):
                     fails.append({'what': '%s.count(%d) after epoch %d is %s, stored copies: %d' % (cont, k, e, cnt[k].split('/')[pos], len(st.get(k, [])))})
             if cont == 'S' and any(len(v) > 1 for v in st.values()):
                 fails.append({'what': 'a set stores a key more than once after epoch %d: %s' % (e, {k: len(v) for k, v in st.items() if len(v) > 1})})
+    # consume_all: every element exactly once, the container left empty
+    W = {}
+    for l in r['lines']:
+        if l.startswith('W '):
+            t = l.split()
+            W.setdefault(t[2], []).append(t[4:])
+    if 'S4C' in W:
+        import collections
+        for cont in ('S4', 'T4'):
+            held = collections.Counter(int(x) for toks in W.get(cont, []) for x in toks)
+            calls = collections.Counter()
+            for toks in W.get(cont + 'C', []):
+                for kv in toks:
+                    k, n = kv.split('=')
+                    calls[int(k)] += int(n)
+            if calls != held:
+                bad = sorted(k for k in set(held) | set(calls) if held[k] != calls[k])[:5]
+                fails.append({'what': '%s consume_all: callback calls per key %s, elements held %s' % (
+                    'set' if cont == 'S4' else 'multiset', {k: calls[k] for k in bad}, {k: held[k] for k in bad})})
+        for toks in W.get('AFTER', []):
+            if toks != ['0', '0']:
+                fails.append({'what': 'containers not empty after consume_all: sizes %s' % toks}); break
+    elif r.get('verdict') == 'ok':
+        fails.append({'what': 'no consume_all output'})
     return fails, cases
 
 def oracle_c15(h, r):
